@@ -1021,42 +1021,3 @@ zstubs! { #[kani::unwind(40)] fn c18_psk_fixed_2_external() { psk_fixed_case(2, 
 zstubs! { #[kani::unwind(40)] fn c18_psk_fixed_2_mixed() { psk_fixed_case(2, 1); } }
 
 
-zstubs! {
-    #[kani::unwind(40)]
-    fn zz_transcript_commit_bare() {
-        use mls_rs::verif::wire::{Sender, WireFormat};
-        let uf = Uf::fresh();
-        let content = auth_content(WireFormat::PublicMessage, vec_of(any_bytes::<2>()), kani::any(), Sender::Member(kani::any()), vec_of(any_bytes::<1>()), None, vec_of(any_bytes::<2>()), None);
-        match confirmed_transcript_hash_create(&uf, vec_of(any_bytes::<NH>()), &content) {
-            Ok(h) => { assert!(h.len() == NH); forget(h); }
-            Err(e) => forget(e),
-        }
-        forget(content);
-    }
-}
-zstubs! {
-    #[kani::unwind(40)]
-    fn zz_transcript_commit_logged() {
-        use mls_rs::verif::wire::{Sender, WireFormat};
-        let mut log = Log::new(2);
-        let uf = Uf::new(&mut log);
-        let gid = any_bytes::<2>();
-        let epoch: u64 = kani::any();
-        let idx: u32 = kani::any();
-        let ad = any_bytes::<1>();
-        let sig = any_bytes::<2>();
-        let interim_prev = any_bytes::<NH>();
-        let content = auth_content(WireFormat::PublicMessage, vec_of(gid), epoch, Sender::Member(idx), vec_of(ad), None, vec_of(sig), None);
-        let want_input = rk::confirmed_transcript_hash_input(1, &gid, epoch, rk::SenderRef::Member(idx), &ad, None, &sig);
-        match confirmed_transcript_hash_create(&uf, vec_of(interim_prev), &content) {
-            Ok(h) => {
-                assert!(log.calls.len() == 1);
-                assert!(rk::eq(&rk::concat(&interim_prev, &want_input), &log.calls[0].a), "hash input");
-                forget(h);
-            }
-            Err(e) => forget(e),
-        }
-        forget(content);
-        forget(log);
-    }
-}
